@@ -69,7 +69,8 @@ def run(repo, rep, tier):
     # them from Token.location (C11 owns its closed form)
     from . import c11
     L.borrow(repo, rep, "R12.6", "C11", c11._location,
-             ("location-line", "location-column"), minimum=2)
+             ("location-line", "location-column", "location-pair"),
+             minimum=3)
     # a string expression keeps the position of its text (C04 owns it)
     from . import c04 as _c04
     L.borrow(repo, rep, "R12.2", "C04", _c04.tales_details,
